@@ -64,8 +64,8 @@ class GSim:
     def alive(self):
         return self.x > 0 or self.i > 0 or self.e > 0 or self.pend > 0
 
-    def usable(self):       # the application can still call into the object through a reference it holds
-        return self.x > 0 or self.i > 0
+    def usable(self):       # the application can still call into the object: through a reference it holds or under an
+        return self.x > 0 or self.i > 0 or self.e > 0     # outstanding enter (the group's own +1 keeps it alive)
 
     def legal(self, c):
         if c in "rR":
@@ -119,7 +119,7 @@ def model_calls(script):
     """list of (per harness op) lists of model calls (op, internal?, arg)"""
     sim, res = GSim(), []
     for c in tokens(script):
-        bi = 0 if sim.x > 0 else 1
+        bi = 0 if sim.x > 0 else (1 if sim.i > 0 else 2)
         if c[0] == "c":
             res.append([(6, bi, int(c[1]))])
         elif c == "a":
@@ -142,7 +142,7 @@ def model_calls(script):
 def gen_group_scripts(rng, n):
     corpus = ["c1fennlR",            # witness shape of seeded defect C17-1: two notifications pending when the group empties
               "ennnlR", "c2fennnnlrRR", "c3ftenlnR", "nnR", "c4fenRl", "eiRnnlI", "c5fTjRenlJ", "c6fiReenllnI", "eelnlR",
-              "c7fFeR" "l", "c8fCenlR", "c9faR", "enarR", "WRWiRWI", "c3fiWrRRRWI", "c1ftwewlR", "rrRRenlennlR", "c2fenlenlennnlR"]
+              "c7fFeR" "l", "c8fCenlR", "c9faR", "enarR", "WRWiRWI", "c3fiWrRRRWI", "c1feRenll", "eRnl", "c2feRennelll", "c1ftwewlR", "rrRRenlennlR", "c2fenlenlennnlR"]
     out = list(corpus)
     for _ in range(n):
         sim, s = GSim(), ""
@@ -603,7 +603,7 @@ def analyse_stress(text, label, rc, err):
     fails, traces = [], []
     stats = {"rounds": 0, "threads": 0, "wake_batches": 0, "max_batch": 0, "cas_retries": 0, "weak_cas_retries": 0,
              "dispose_in_release": 0, "dispose_in_leave": 0, "dispose_in_internal_release": 0, "dispose_in_notify": 0,
-             "calls_via_internal_reference": 0, "retain_weak_calls": 0, "retain_weak_refused": 0, "max_concurrent_borrowers": 0}
+             "calls_via_internal_reference": 0, "calls_under_an_outstanding_enter": 0, "retain_weak_calls": 0, "retain_weak_refused": 0, "max_concurrent_borrowers": 0}
     callspans = []
     for l in other:
         f = l.split()
@@ -631,8 +631,10 @@ def analyse_stress(text, label, rc, err):
         for e in tr:
             if e.kind == 100:
                 lastop, lastseq = e.a % 100, e.seq
-                if e.a >= 100:
+                if 100 <= e.a < 200:
                     stats["calls_via_internal_reference"] += 1
+                if e.a >= 200:
+                    stats["calls_under_an_outstanding_enter"] += 1
                 if lastop == 11:
                     stats["retain_weak_calls"] += 1
             if e.kind == 101 and lastop in (3, 5, 1, 9, 11):
